@@ -141,6 +141,10 @@ def messages(tier, rng):
     for cls, doc, meta in gens.item_level_messages([gens.PADDED_STORY_IDS[1], '  '], gens.PADDED_ITEM_IDS, max_src=2):
         for pretty in (False, True):
             yield to_text(doc, pretty=pretty), dict(meta, cls=cls, pretty=pretty, padded=True)
+    # carried elements whose payload holds elements named item / story / storyID / itemID
+    for cls, doc, meta in gens.decoy_payload_messages():
+        for pretty in (False, True):
+            yield to_text(doc, pretty=pretty), dict(meta, cls=cls, pretty=pretty, decoy=True)
     for cls, doc, meta in gens.other_messages(['A', 'B']):
         for pretty in (False, True):
             yield to_text(doc, pretty=pretty), dict(meta, cls=cls, pretty=pretty)
@@ -197,6 +201,25 @@ class Check:
             want['stories'] = srcs('storyID', True)
         if cls in ('EAItemSwap', 'EAItemMove'):
             want['items'] = srcs('itemID', True)
+        # carried stories / items: exactly the direct children of the base tag (of the first element_source), in order
+        def carried_ids(parent, tag, idtag):
+            out = []
+            for k in (parent[4] if parent else ()):
+                if k[0] == tag:
+                    c = X.find(k, idtag)
+                    out.append(None if c is None else c[2])
+            return out
+        src0 = (X.findall(b, 'element_source') or [None])[0]
+        if cls in ('StoryAppend', 'StoryReplace', 'RunningOrderReplace', 'RunningOrder'):
+            want['stories'] = carried_ids(b, 'story', 'storyID')
+        if cls == 'StoryInsert':
+            want['source_stories'] = carried_ids(b, 'story', 'storyID')
+        if cls in ('ItemInsert', 'ItemReplace'):
+            want['items'] = carried_ids(b, 'item', 'itemID')
+        if cls in ('EAStoryInsert', 'EAStoryReplace'):
+            want['stories'] = carried_ids(src0, 'story', 'storyID')
+        if cls in ('EAItemInsert', 'EAItemReplace'):
+            want['items'] = carried_ids(src0, 'item', 'itemID')
         for name, vals in ex:
             if any(v == '' for v in vals):
                 return '%s.%s reports a blank ID as %r instead of None' % (cls, name, vals)
@@ -212,7 +235,8 @@ class Check:
                 return '%s.inspect() raised %s' % (cls, ins[4:])
             return None
         for k, v in want.items():
-            if k in ('stories', 'items', 'source_story'):
+            if k in ('stories', 'items', 'source_story') and cls not in ('RunningOrderReplace', 'RunningOrder'):
+                # (roCreate / roReplace outline their metadata, not their stories)
                 for i in v:
                     if not any(l.endswith(str(i)) for l in ins.split('\n')):
                         return '%s.inspect() does not mention source %r' % (cls, i)
